@@ -227,7 +227,13 @@ func c01History(t datarep.Table, idx int, rng *rand.Rand) (int, []evid.Div, erro
 		}
 		rp := map[string]interface{}{"engine": "c01-history", "index": idx, "history": hist, "message": wireMsg, "buf": plan.Buf}
 		ctx := fmt.Sprintf("message %d of a connection (mode %d, lmtp %v) after %v, stream %q, backend buffer %d", m, mode, lmtp, hist, wireMsg, plan.Buf)
-		if !cn.WaitIdle() {
+		idle := cn.WaitIdle()
+		for tries := 0; !idle && tries < 5 && be.InFlight() > 0 && !drv.TooManyHangs(); tries++ {
+			// a backend reading a long message an octet at a time on a loaded machine is
+			// slow, not stuck: as long as its callback is running, keep waiting
+			idle = cn.WaitIdle()
+		}
+		if !idle {
 			err := cn.NotIdleError("C01 history: " + ctx)
 			var stuck *drv.StuckError
 			if asStuck(err, &stuck) {
